@@ -115,13 +115,15 @@ def rand_ann(rnd, depth):
         if rnd.random() < 0.1:
             return A("lit", vs=[V("int", 1), V("str", 1)])
         return A(rnd.choice(LEAF_ANN))
-    k = rnd.choice(["seq", "set", "fset", "vtuple", "alias", "flist", "pair", "tuple", "tuple", "map", "union", "union"])
+    k = rnd.choice(["seq", "set", "fset", "vtuple", "alias", "flist", "pair", "swap", "tuple", "tuple", "map", "union", "union"])
     if k in ("seq", "vtuple", "alias", "flist", "pair"):
         return A(k, [rand_ann(rnd, depth - 1)])
     if k in ("set", "fset"):
         return A(k, [A(rnd.choice(["int", "str", "bool", "none", "enum", "date"]))])      # hashable elements
     if k == "tuple":
         return A(k, [rand_ann(rnd, depth - 1) for _ in range(rnd.randint(1, 3))])
+    if k == "swap":
+        return A(k, [rand_ann(rnd, depth - 1), rand_ann(rnd, depth - 1)])
     if k == "map":
         return A(k, [A(rnd.choice(["str", "int"])), rand_ann(rnd, depth - 1)])
     alts = [rand_ann(rnd, depth - 1) for _ in range(rnd.randint(2, 3))]
@@ -153,6 +155,8 @@ def rand_val(rnd, a, depth=4):
         return V(rnd.choice(["set", "fset"]), 0, [json.loads(x) for x in sorted(items)])
     if k == "pair":
         return V("tuple", 0, [rand_val(rnd, xs[0], depth - 1) for _ in range(rnd.choice([2, 2, 2, 1, 3]))])
+    if k == "swap":
+        return V("tuple", 0, [rand_val(rnd, xs[1], depth - 1), rand_val(rnd, xs[0], depth - 1)])
     if k == "tuple":
         n = len(xs) if rnd.random() < 0.85 else rnd.randint(0, 3)
         return V(rnd.choice(["tuple", "tuple", "list"]), 0, [rand_val(rnd, xs[min(i, len(xs) - 1)], depth - 1) for i in range(n)])
